@@ -106,9 +106,13 @@ parse_mode(const char *s)
 	return (atoi(s));
 }
 
+static bool poll_have; // descriptors fetched since `open`
+static int  poll_rfd = -1, poll_wfd = -1, poll_rrv, poll_wrv;
+
 static void
 do_close(void)
 {
+	poll_have = false;
 	for (int i = 0; i < NCTX; i++) {
 		if (ctx_open[i]) {
 			nng_ctx_close(ctxs[i]);
@@ -302,6 +306,7 @@ main(void)
 				}
 			}
 			sock_open = rv == 0;
+			poll_have = false;
 			if (rv == 0) {
 				rv = nng_listen(sock, "gopher://sut", NULL, 0);
 				nlisten++;
@@ -515,15 +520,24 @@ main(void)
 			}
 			finish_line();
 		} else if (IS("poll")) {
-			int  rfd = -1, wfd = -1;
+			// An application obtains the two descriptors ONCE and then only polls them: fetch them at the
+			// first `poll` after `open` and keep them (fetching again would refresh the level of the
+			// message-queue based descriptors of raw sockets and hide a stale one).
 			char r = '-', w = '-';
-			if (nng_socket_get_recv_poll_fd(sock, &rfd) == 0) {
-				struct pollfd pf = { rfd, POLLIN, 0 };
-				r                = poll(&pf, 1, 0) > 0 ? '1' : '0';
-			}
-			if (nng_socket_get_send_poll_fd(sock, &wfd) == 0) {
-				struct pollfd pf = { wfd, POLLIN, 0 };
-				w                = poll(&pf, 1, 0) > 0 ? '1' : '0';
+			if (sock_open) {
+				if (!poll_have) {
+					poll_rrv  = nng_socket_get_recv_poll_fd(sock, &poll_rfd);
+					poll_wrv  = nng_socket_get_send_poll_fd(sock, &poll_wfd);
+					poll_have = true;
+				}
+				if (poll_rrv == 0) {
+					struct pollfd pf = { poll_rfd, POLLIN, 0 };
+					r                = poll(&pf, 1, 0) > 0 ? '1' : '0';
+				}
+				if (poll_wrv == 0) {
+					struct pollfd pf = { poll_wfd, POLLIN, 0 };
+					w                = poll(&pf, 1, 0) > 0 ? '1' : '0';
+				}
 			}
 			ev_add("poll %c %c", r, w);
 			finish_line();
